@@ -10,6 +10,7 @@ package nbio
 import (
 	"encoding/binary"
 	"errors"
+	"io"
 	"net"
 	"runtime"
 	"sync"
@@ -916,16 +917,20 @@ func (c *Conn) flush() error {
 				}
 				v.remain -= int64(n)
 				v.offset += int64(n)
-				if v.remain <= 0 {
-					c.releaseToWrite(c.writeList[0])
-					c.writeList[0] = nil
-					c.writeList = c.writeList[1:]
-				}
 			}
 			if err != nil {
 				return err
 			}
+			if n == 0 {
+				// the file has fewer bytes than the range that was accepted.
+				return io.ErrUnexpectedEOF
+			}
 		}
+		// nothing (left) to send, also for a range queued with no bytes:
+		// drop the entry, or flush would find the same head again forever.
+		c.releaseToWrite(v)
+		c.writeList[0] = nil
+		c.writeList = c.writeList[1:]
 		return nil
 	}
 
